@@ -63,8 +63,9 @@ type LoopSpec struct {
 type SiteSpec struct {
 	Callee string // substring of callee name
 	Ord    int    // 1-based among matching call sites in source order; 0 = all
-	Kind   string // sink | assert | assume(lib only)
+	Kind   string // sink | assert | ghost
 	Cl     Clause
+	Ghost  *GhostSet
 }
 
 type Contract struct {
@@ -89,6 +90,7 @@ type Contract struct {
 	Alias    string
 	Returns  string
 	Ghosts   []GhostSet
+	Stables  []Clause // facts about lock-protected state that no other thread can invalidate (assumed again after Lock)
 }
 
 type GhostSet struct {
@@ -110,6 +112,8 @@ type Specs struct {
 	ConstGlobals map[string]bool
 	TypeResolver func(name string) (Sort, error)
 	LockInvs     []LockInv
+	Placeholders []string
+	GoSortTypes  []string
 	Guarded      []GuardedField
 }
 
@@ -138,7 +142,7 @@ func (s *Specs) sortByName(n string) (Sort, error) {
 
 var clauseKeywords = map[string]bool{"func": true, "lib": true, "iface": true, "model": true, "ghostmodel": true, "ufun": true, "def": true, "axiom": true, "const": true,
 	"requires": true, "ensures": true, "assigns": true, "pure": true, "readonly": true, "inline": true, "loop": true, "sink": true, "at": true,
-	"trusted": true, "alias": true, "returns": true, "also": true, "like": true, "fresh": true, "panics": true, "props": true, "sort": true, "params": true, "constglobal": true, "ghost": true, "gosort": true, "lockinv": true, "guarded": true}
+	"trusted": true, "alias": true, "returns": true, "also": true, "like": true, "fresh": true, "panics": true, "props": true, "sort": true, "params": true, "constglobal": true, "ghost": true, "gosort": true, "lockinv": true, "guarded": true, "stable": true}
 
 // loadSpecFile parses one contract/spec file. Lines may carry a "//@" prefix (Go comment-only contract files).
 func (s *Specs) loadSpecFile(path string) error {
@@ -222,9 +226,12 @@ func (s *Specs) loadSpecFile(path string) error {
 			}
 			so, err := s.TypeResolver(f[1])
 			if err != nil {
-				return fmt.Errorf("%s: %v", where, err)
+				// the package is not loaded for this check: an opaque sort keeps the specs well-formed
+				so = Sort("Unloaded_" + f[0])
+				s.Placeholders = append(s.Placeholders, string(so))
 			}
 			s.SortAlias[f[0]] = so
+			s.GoSortTypes = append(s.GoSortTypes, f[1])
 		case "lockinv":
 			// lockinv pkg.Struct.mutexField : E   (E over "self")
 			parts := strings.SplitN(rest, ":", 2)
@@ -305,6 +312,12 @@ func (s *Specs) loadSpecFile(path string) error {
 				return fmt.Errorf("%s: clause %q outside a contract", where, kw)
 			}
 			switch kw {
+			case "stable":
+				c, err := mkClause(rest)
+				if err != nil {
+					return err
+				}
+				cur.Stables = append(cur.Stables, c)
 			case "requires", "ensures", "panics":
 				c, err := mkClause(strings.TrimPrefix(rest, "when "))
 				if err != nil {
@@ -441,13 +454,37 @@ func (s *Specs) loadSpecFile(path string) error {
 					callee = callee[:j]
 				}
 				body := strings.TrimSpace(strings.TrimPrefix(strings.TrimSpace(strings.TrimPrefix(rest, f[0])), f[1]))
+				kind := "sink"
+				if kw == "at" {
+					kind = f[1] // assert | ghost
+				}
+				if kind == "ghost" {
+					parts := strings.SplitN(body, ":=", 2)
+					if len(parts) != 2 {
+						return fmt.Errorf("%s: bad ghost site clause", where)
+					}
+					lhs, err := parseExpr(strings.TrimSpace(parts[0]))
+					if err != nil {
+						return fmt.Errorf("%s: %v", where, err)
+					}
+					call, ok := lhs.(*ECall)
+					if !ok || len(call.Args) > 1 {
+						return fmt.Errorf("%s: ghost target must be model() or model(x)", where)
+					}
+					c, err := mkClause(parts[1])
+					if err != nil {
+						return err
+					}
+					g := &GhostSet{Model: call.Fn, Val: c}
+					if len(call.Args) == 1 {
+						g.Arg = call.Args[0]
+					}
+					cur.Sites = append(cur.Sites, SiteSpec{Callee: callee, Ord: ord, Kind: kind, Cl: c, Ghost: g})
+					break
+				}
 				c, err := mkClause(body)
 				if err != nil {
 					return err
-				}
-				kind := "sink"
-				if kw == "at" {
-					kind = f[1] // assert | assume
 				}
 				cur.Sites = append(cur.Sites, SiteSpec{Callee: callee, Ord: ord, Kind: kind, Cl: c})
 			}
